@@ -44,6 +44,136 @@ def text_writer(data, file_info, prefix="w0", **kwargs):
         json.dump({"w": prefix, "d": data}, f, sort_keys=True)
 
 
+def _do_read(file_info, tag):
+    with open(file_info.path) as f:
+        d = json.load(f)
+    return {"rd": tag, "w": d["w"], "d": d["d"]}
+
+
+def _do_write(data, file_info, prefix):
+    with open(file_info.path, "w") as f:
+        json.dump({"w": prefix, "d": data}, f, sort_keys=True)
+
+
+def reader_kw(file_info, **kwargs):
+    return _do_read(file_info, kwargs.get("tag", "r0"))
+
+
+def reader_plain(file_info):
+    return _do_read(file_info, "r0")
+
+
+def reader_extra(file_info, marker=None, tag="r0"):
+    return _do_read(file_info, tag)
+
+
+def writer_kw(data, file_info, **kwargs):
+    _do_write(data, file_info, kwargs.get("prefix", "w0"))
+
+
+def writer_plain(data, file_info):
+    _do_write(data, file_info, "w0")
+
+
+def writer_extra(data, file_info, marker=None, prefix="w0"):
+    _do_write(data, file_info, prefix)
+
+
+def info_fn(file_info, **kwargs):
+    from typhon.files.handlers.common import FileInfo
+    return FileInfo(file_info.path, None, {"info": "seen"})
+
+
+class HandlerObject:
+    """bound methods as reader / writer / info function (picklable)"""
+
+    def read_two(self, file_info, tag="r0", **kwargs):
+        return _do_read(file_info, tag)
+
+    def read_one(self, file_info, **kwargs):
+        return _do_read(file_info, kwargs.get("tag", "r0"))
+
+    def read_plain(self, file_info):
+        return _do_read(file_info, "r0")
+
+    def write_two(self, data, file_info, prefix="w0", **kwargs):
+        _do_write(data, file_info, prefix)
+
+    def write_one(self, data, file_info, **kwargs):
+        _do_write(data, file_info, kwargs.get("prefix", "w0"))
+
+    def write_plain(self, data, file_info):
+        _do_write(data, file_info, "w0")
+
+    def info(self, file_info):
+        return info_fn(file_info)
+
+
+class CallReader:
+    def __call__(self, file_info, tag="r0"):
+        return _do_read(file_info, tag)
+
+
+class CallReaderPlain:
+    def __call__(self, file_info):
+        return _do_read(file_info, "r0")
+
+
+class CallWriter:
+    def __call__(self, data, file_info, prefix="w0"):
+        _do_write(data, file_info, prefix)
+
+
+class CallWriterPlain:
+    def __call__(self, data, file_info):
+        _do_write(data, file_info, "w0")
+
+
+class CallInfo:
+    def __call__(self, file_info):
+        return info_fn(file_info)
+
+
+# kind -> (factory, does the callable take the read/write arguments?, usable with process pools?)
+READER_KINDS = {
+    "function": (lambda: text_reader, True, True),
+    "function-kw": (lambda: reader_kw, True, True),
+    "function-plain": (lambda: reader_plain, False, True),
+    "lambda": (lambda: (lambda fi, tag="r0": _do_read(fi, tag)), True, False),
+    "lambda-plain": (lambda: (lambda fi: _do_read(fi, "r0")), False, False),
+    "method-two": (lambda: HandlerObject().read_two, True, True),
+    "method-plain": (lambda: HandlerObject().read_plain, False, True),
+    "partial": (lambda: __import__("functools").partial(reader_extra, marker="m"), True, True),
+    "callable": (lambda: CallReader(), True, True),
+    "callable-plain": (lambda: CallReaderPlain(), False, True),
+}
+# A bound-method reader with exactly ONE extra parameter loses its read arguments in the unchanged code
+# (`number_args = 1 + int(ismethod)` although inspect.signature of a bound method already omits self) - reported as a suspected
+# defect, signature `bound-method-reader-args-dropped`; generated only when VERIF_C11_BOUND_READER=1.
+if os.environ.get("VERIF_C11_BOUND_READER") == "1":
+    READER_KINDS["method-one"] = (lambda: HandlerObject().read_one, True, True)
+WRITER_KINDS = {
+    "function": (lambda: text_writer, True, True),
+    "function-kw": (lambda: writer_kw, True, True),
+    "function-plain": (lambda: writer_plain, False, True),
+    "lambda": (lambda: (lambda d, fi, prefix="w0": _do_write(d, fi, prefix)), True, False),
+    "lambda-plain": (lambda: (lambda d, fi: _do_write(d, fi, "w0")), False, False),
+    "method-two": (lambda: HandlerObject().write_two, True, True),
+    "method-one": (lambda: HandlerObject().write_one, True, True),
+    "method-plain": (lambda: HandlerObject().write_plain, False, True),
+    "partial": (lambda: __import__("functools").partial(writer_extra, marker="m"), True, True),
+    "callable": (lambda: CallWriter(), True, True),
+    "callable-plain": (lambda: CallWriterPlain(), False, True),
+}
+INFO_KINDS = {
+    "function": (lambda: info_fn, True),
+    "lambda": (lambda: (lambda fi: info_fn(fi)), False),
+    "method": (lambda: HandlerObject().info, True),
+    "partial": (lambda: __import__("functools").partial(info_fn, marker="m"), True),
+    "callable": (lambda: CallInfo(), True),
+}
+
+
 def post_fn(file_info, data):
     return {"post": data}
 
@@ -92,18 +222,13 @@ SETS = {
               w=None, r="rd", kind="full"),
     "E": dict(tmpl="E/{sat}/{year}{month}{day}T{hour}{minute}{second}.dat", z=False, p=False, w="we", r=None, kind="start"),
     "F": dict(tmpl="F/{year}/{month}/{sat}_{day}.dat", z=False, p=False, w=None, r=None, kind="day"),
+    # two-digit years: the window 1965 .. 2064 (year2_threshold = 65); boundary years are drawn with high probability
+    "I": dict(tmpl="I/{sat}/{year2}{month}{day}_{hour}{minute}{second}-{end_year2}{end_month}{end_day}{end_hour}{end_minute}{end_second}.dat",
+              z=False, p=False, w="wi", r=None, kind="year2"),
     # no placeholder in any directory name (flat): the path setter must forget the sub directory of a previous path
     "H": dict(tmpl="H/{sat}_{year}{month}{day}T{hour}{minute}{second}.dat", z=False, p=False, w=None, r="rh", kind="start"),
 }
 UNFILLED_TMPL = "G/{orbit}/{year}{month}{day}{hour}{minute}{second}.dat"      # a placeholder no source file can fill
-
-
-def wtag(sid):
-    return SETS[sid]["w"] or "w0"
-
-
-def rtag(sid):
-    return SETS[sid]["r"] or "r0"
 
 
 def own_name(sid, key):
@@ -121,6 +246,8 @@ def own_name(sid, key):
         return f"E/{sat}/{s:%Y%m%d}T{s:%H%M%S}.dat"
     if sid == "H":
         return f"H/{sat}_{s:%Y%m%d}T{s:%H%M%S}.dat"
+    if sid == "I":
+        return f"I/{sat}/{s.year % 100:02d}{s:%m%d}_{s:%H%M%S}-{e.year % 100:02d}{e:%m%d%H%M%S}.dat"
     return f"F/{s:%Y}/{s:%m}/{sat}_{s:%d}.dat"
 
 
@@ -130,6 +257,8 @@ def rekey(sid, key):
     kind = SETS[sid]["kind"]
     if kind == "full":
         return key
+    if kind == "year2":
+        return key if 1965 <= s.year <= 2064 and 1965 <= e.year <= 2064 else None
     if kind == "sameday":
         return key if s.date() == e.date() and s <= e else None
     if kind == "start":
@@ -142,11 +271,13 @@ def key_token(key):
     return f"{us(key[0])}_{us(key[1])}_{key[2]}"
 
 
-def make_sets(root, worker_type, ids):
+def make_sets(root, worker_type, ids, kinds):
+    """kinds: sid -> (reader kind, writer kind, info kind or None)"""
     from typhon.files import FileSet, FileHandler
     out = {}
     for sid in ids:
         cfg = SETS[sid]
+        rk, wk, ik = kinds[sid]
         kw = {}
         if cfg["p"]:
             kw["post_reader"] = post_fn
@@ -154,7 +285,11 @@ def make_sets(root, worker_type, ids):
             kw["write_args"] = {"prefix": cfg["w"]}
         if cfg["r"]:
             kw["read_args"] = {"tag": cfg["r"]}
-        out[sid] = FileSet(os.path.join(root, cfg["tmpl"]), handler=FileHandler(reader=text_reader, writer=text_writer),
+        hk = {"reader": READER_KINDS[rk][0](), "writer": WRITER_KINDS[wk][0]()}
+        if ik:
+            hk["info"] = INFO_KINDS[ik][0]()
+            kw["info_via"] = "both"
+        out[sid] = FileSet(os.path.join(root, cfg["tmpl"]), handler=FileHandler(**hk),
                            name=sid, worker_type=worker_type, max_processes=2, max_threads=2, **kw)
     return out
 
@@ -169,13 +304,9 @@ def walk(root):
     return out
 
 
-def decode_expect(sid, struct, tag=None, via=None):
-    """what reading `struct` through fileset sid returns (token) or None = raises (oracle).  `via`: the file lies in
-    sid's template but is read through a FileSet object that is a copy of fileset `via` (returned by move(<string>)):
-    decompression goes by the path's suffix, reader arguments and post_reader come from `via`."""
-    z = SETS[sid]["z"]
-    p = SETS[via or sid]["p"]
-    tag = tag or rtag(via or sid)
+def decode_core(z, p, tag, struct):
+    """what reading `struct` gives (token) or None = raises: z = the path has a compression suffix, p = post_reader set,
+    tag = the read argument that reaches the reader"""
     if z:
         if not struct.startswith("z:r:"):
             return None
@@ -204,7 +335,36 @@ def history_case(ck, scratch, nops, use_model=True, pool="thread"):
     if "H" not in ids and rng.random() < 0.4:
         ids = sorted(ids[:-1] + ["H"])
     returned = {}                               # dst -> (FileSet returned by move(<string template>), source id)
-    sets = make_sets(root, pool, ids)
+    if "I" not in ids and rng.random() < 0.3:
+        ids = sorted([x for x in ids if x != ids[0]] + ["I"])
+    kinds = {}
+    for sid in ids:
+        rks = [k for k, v in READER_KINDS.items() if v[2] or pool == "thread"]
+        wks = [k for k, v in WRITER_KINDS.items() if v[2] or pool == "thread"]
+        iks = [k for k, v in INFO_KINDS.items() if v[1] or pool == "thread"]
+        kinds[sid] = (rng.choice(rks), rng.choice(wks), rng.choice(iks) if (not SETS[sid]["z"] and rng.random() < 0.25) else None)
+        ck.count("handler/reader/" + kinds[sid][0])
+        ck.count("handler/writer/" + kinds[sid][1])
+        if kinds[sid][2]:
+            ck.count("handler/info/" + kinds[sid][2])
+    sets = make_sets(root, pool, ids, kinds)
+
+    def wtag(sid, override=None):
+        """the prefix that reaches the writer of fileset sid"""
+        return (override or SETS[sid]["w"] or "w0") if WRITER_KINDS[kinds[sid][1]][1] else "w0"
+
+    def rtag(sid, override=None):
+        return (override or SETS[sid]["r"] or "r0") if READER_KINDS[kinds[sid][0]][1] else "r0"
+
+    def sig(default, *sids):
+        """suspected defect of the unchanged code (only generated with VERIF_C11_BOUND_READER=1)"""
+        return "bound-method-reader-args-dropped" if any(kinds[x][0] == "method-one" for x in sids if x) else default
+
+    def decode_expect(sid, struct, tag=None, via=None):
+        """reading `struct` (a file in sid's template) through fileset sid, or through a copy of fileset `via`"""
+        owner = via or sid
+        return decode_core(SETS[sid]["z"], SETS[owner]["p"], rtag(owner, tag), struct)
+
     oracle = {sid: {} for sid in ids}           # key (as the fileset knows it) -> structure
     lines = [f"fileset {sid} {int(SETS[sid]['z'])} {int(SETS[sid]['p'])} {wtag(sid)} {rtag(sid)}" for sid in ids]
     checks = []                                 # (line index, expected output, description)
@@ -215,7 +375,7 @@ def history_case(ck, scratch, nops, use_model=True, pool="thread"):
     if rng.random() < 0.35:
         day0 = dt.datetime(year, 12, 31)          # doy 365 / 366
     slots = [day0 + dt.timedelta(days=rng.choice([0, 0, 1, 2, 40, 366]), hours=h) for h in range(0, 22, 2)]
-    case = {"op": "history", "pool": pool, "sets": ids, "ops": ops}
+    case = {"op": "history", "pool": pool, "sets": ids, "handlers": {k: list(v) for k, v in kinds.items()}, "ops": ops}
     counter = [0]
 
     def ensure_name(sid, key):
@@ -235,6 +395,14 @@ def history_case(ck, scratch, nops, use_model=True, pool="thread"):
     def new_key(sid):
         kind = SETS[sid]["kind"]
         sat = rng.choice(["A", "B", "noaa15"])
+        if kind == "year2":
+            y = rng.choice([1965, 1965, 1966, 1999, 2000, 2064, 2064, 2019, rng.randint(1965, 2064)])
+            s = dt.datetime(y, rng.choice([1, 6, 12]), rng.choice([1, 15, 28]), rng.choice([0, 11, 23]), rng.choice([0, 30]))
+            e = s + dt.timedelta(hours=rng.choice([0, 1, 5]), minutes=rng.choice([0, 7]), seconds=rng.choice([0, 5]))
+            if rng.random() < 0.2 and y in (1965, 1999, 2063):
+                s = dt.datetime(y, 12, 31, 23, 30)
+                e = s + dt.timedelta(hours=1)                   # into the next year (1966, 2000, 2064)
+            return (s, e, sat)
         if kind == "full" and rng.random() < 0.45:
             y = rng.choice([2015, 2016, 2017, 2019, 2020])
             s = dt.datetime(y, 12, rng.choice([30, 31, 31]), rng.choice([0, 11, 22, 23]), rng.choice([0, 30]))
@@ -246,7 +414,7 @@ def history_case(ck, scratch, nops, use_model=True, pool="thread"):
 
     def window():
         if rng.random() < 0.3:
-            return (dt.datetime(2014, 1, 1) - HALF, dt.datetime(2023, 1, 1) + HALF)
+            return (dt.datetime(1960, 1, 1) - HALF, dt.datetime(2070, 1, 1) + HALF)
         allk = [k for sid in ids for k in oracle[sid]]
         if allk and rng.random() < 0.5:
             k = rng.choice(allk)
@@ -264,7 +432,8 @@ def history_case(ck, scratch, nops, use_model=True, pool="thread"):
             miss = sorted(set(want) - set(got))[:3]
             extra = sorted(set(got) - set(want))[:3]
             diff = [(k, got[k][:40], want[k][:40]) for k in got if k in want and got[k] != want[k]][:2]
-            ck.violation("conservation", f"after {tag}: missing {miss} extra {extra} changed {diff}", case)
+            ck.violation(sig("conservation", *ids) if (diff and not miss and not extra) else "conservation",
+                         f"after {tag}: missing {miss} extra {extra} changed {diff}", case)
             return False
         lines.append("ls")
         exp = " ".join(f"{hx(p)}={got[p]}" for p in sorted(got)) or "-"
@@ -331,9 +500,9 @@ def history_case(ck, scratch, nops, use_model=True, pool="thread"):
                 except Exception as e:      # noqa
                     ck.violation("write-raised", f"write to {sid} raised {type(e).__name__}: {e}", case)
                     return
-                oracle[sid][key] = ("z:" if SETS[sid]["z"] else "") + f"r:W{override or wtag(sid)}." + token(data)
+                oracle[sid][key] = ("z:" if SETS[sid]["z"] else "") + f"r:W{wtag(sid, override)}." + token(data)
                 ops.append(["write", sid, key_token(key), token(data), override])
-                lines.append(f"write {sid} {key_token(key)} {token(data)} {override or '-'}")
+                lines.append(f"write {sid} {key_token(key)} {token(data)} {wtag(sid, override) if override else '-'}")
                 checks.append((len(lines) - 1, "ok", "write"))
                 tag = f"write {sid}"
             elif r < 0.5:
@@ -350,6 +519,9 @@ def history_case(ck, scratch, nops, use_model=True, pool="thread"):
                     return
                 got = sorted((os.path.relpath(i.path, root), us(i.times[0]), us(i.times[1]), i.attr.get("sat")) for i in found)
                 want = sorted((own_name(sid, k), us(k[0]), us(k[1]), k[2]) for k in oracle[sid] if overlaps(k, qs, qe))
+                owner = via or sid
+                if kinds[owner][2] and any(i.attr.get("info") != "seen" for i in found):
+                    ck.violation("info-function", f"the {kinds[owner][2]} info function of fileset {owner} was not applied to the files found", case)
                 if got != want:
                     ck.violation("move-return-stale-subdir" if via else "find",
                                  f"find({sid}{' via the fileset returned by move' if via else ''}, {qs}, {qe}) = {got[:3]} expected {want[:3]}", case)
@@ -367,9 +539,9 @@ def history_case(ck, scratch, nops, use_model=True, pool="thread"):
                     if key is not None:
                         want_tok = decode_expect(sid, oracle[sid][key], tg, via)
                         if tok != want_tok:
-                            ck.violation("read", f"read({rel}, tag={tg}{', via returned fileset' if via else ''}) = {tok} expected {want_tok}", case)
+                            ck.violation(sig("read", sid, via), f"read({rel}, tag={tg}{', via returned fileset' if via else ''}) = {tok} expected {want_tok}", case)
                     if via is None or SETS[via]["p"] == SETS[sid]["p"]:
-                        lines.append(f"read {sid} {hx(rel)} {tg or (rtag(via) if via else '-')}")
+                        lines.append(f"read {sid} {hx(rel)} {rtag(via or sid, tg) if (tg or via) else '-'}")
                         checks.append((len(lines) - 1, tok if tok is not None else "raise", f"read {rel}"))
                 tag = f"find {sid}"
             elif r < 0.8:
@@ -707,6 +879,9 @@ ANCHORS = [("typhon/files/fileset.py", "FileSet.__setitem__"), ("typhon/files/fi
            ("typhon/files/fileset.py", "FileSet._configure_pool_and_worker_args"), ("typhon/files/fileset.py", "FileSet._call_map_function"),
            ("typhon/files/fileset.py", "FileSet.map"), ("typhon/files/fileset.py", "FileSet.get_filename"),
            ("typhon/files/fileset.py", "FileSet._retrieve_time_coverage"), ("typhon/files/fileset.py", "FileSet.copy"),
+           ("typhon/files/fileset.py", "FileSet._standardise_datetime_args"),
+           ("typhon/files/handlers/common.py", "FileHandler.read"), ("typhon/files/handlers/common.py", "FileHandler.write"),
+           ("typhon/files/handlers/common.py", "FileHandler.get_info"),
            ("typhon/files/fileset.py", "FileSet.find"),
            ("typhon/files/handlers/common.py", "NetCDF4.read"), ("typhon/files/handlers/common.py", "NetCDF4.write"),
            ("typhon/files/handlers/common.py", "CSV.read"), ("typhon/files/handlers/common.py", "CSV.write")]
